@@ -113,6 +113,23 @@ def run_check(tier, seed):
         p = "".join(rng.choice(alphabet) for _ in range(rng.randint(0, 5)))
         cases.append(ts_req(p, rng.randint(0, 4102444800)))
     correspond(run, "pattern_tokenizer_random_combinations", cases, **kw)
+
+    # the component level: ts(...) schema components and the calver presets resolved from the object's commit time (bumped_timestamp, else
+    # last_timestamp), through both renderings; boundary instants incl. 0 and the days around New Year (ISO-week-year vs calendar year)
+    from . import zgen
+    BOUND = [0, 1, 59, 86399, 86400, 1609459200, 1609459200 + 86400, 1609459200 + 2 * 86400, 1735516800, 1735603200, 946684800, 4102444800, 1710511845]
+    cases = []
+    for _ in range(n // 8):
+        pats = rng.sample(zgen.TS_PATTERNS, rng.randint(1, 4))
+        s_ = {"core": [("v", "Major")] + [("t", p) for p in pats[:2]], "extra": [("v", "PreRelease")], "build": [("t", p) for p in pats[2:]] + [("v", "BumpedTimestamp")]}
+        v_ = zgen.rand_vars(rng)
+        v_["bumped_ts"] = rng.choice(BOUND + [None, rng.randint(0, 4102444800)])
+        v_["last_ts"] = rng.choice([None, 1710633600, rng.randint(0, 4102444800)])
+        z_ = zgen.enc_zerv(s_, v_)
+        cases += ["REN semver " + z_, "REN pep440 " + z_]
+        if rng.random() < 0.5:
+            cases.append(f"RENP {rng.choice(['semver', 'pep440'])} {hx(rng.choice([p for p in zgen.PRESETS if p.startswith('calver')]))} {zgen.enc_vars(v_)}")
+    correspond(run, "component_level_ts_and_calver_presets", cases, nontrivial=lambda c, r: r.startswith("OK"), describe=lambda c: {"request": c[:500]})
     return run
 
 
